@@ -28,6 +28,11 @@ BODIES = [
     '{ loop { break lex.slice().len() > 2; } }',
     '{ let r#return = 1usize; lex.slice().len() > r#return }',
     'lex.slice().bytes().all(|b| b != b\'?\')',
+    # (D19) a declared return type is not a body; a leading minus sign is
+    '-> bool { true }',
+    '-> bool { return true }',
+    '-1i8 == 0',
+    '-(lex.slice().len() as i64) > -2',
 ]
 TOK = re.compile(r'''\s*(?:(b?"(?:[^"\\]|\\.)*")|(b?'(?:[^'\\]|\\.)')|(r\#[A-Za-z_][A-Za-z0-9_]*)|([A-Za-z_][A-Za-z0-9_]*)|([0-9][A-Za-z0-9_]*)|([(\[{])|([)\]}])|(.))''', re.S)
 
@@ -80,6 +85,17 @@ def tie(run, log=print):
     stats = dict(bodies=len(BODIES), agree=0, closure_calls=0, differ=0, samples=[])
     for b, src, q, cap in zip(BODIES, srcs, qs, caps):
         a = ans.get('Y ' + q)
+        if a is not None and cap is not None and 'verdict=refused' in a:
+            # the model says the derive reports the closure (a declared return type)
+            if cap.verdict == 'REJECT':
+                stats['agree'] += 1
+                stats['refused'] = stats.get('refused', 0) + 1
+            else:
+                stats['differ'] += 1
+                run.violation('tie', dict(definition=src, body=b, model='refused', derive=cap.verdict,
+                                          what='the model of parse_callback (CallbackEmit.headFixed: a closure that declares its return type is reported) and the derive disagree',
+                                          correspondence='Parser::parse_callback vs LogosModel.CallbackEmit.headFixed'), no_input=True, key='cbhead|' + b)
+            continue
         if a is None or cap is None or cap.verdict != 'ACCEPT' or not cap.codetext:
             stats['samples'].append(dict(body=b, verdict=getattr(cap, 'verdict', None), model=a))
             continue
